@@ -385,6 +385,39 @@ def run_shard(ctx):
     R = ctx.rng
     quick = ctx.tier == "quick"
     cs = containers(quick)
+    # 1. deeper random nestings
+    n_r = 300 if quick else 20000
+    for i in range(n_r):
+        case = {"kind": "struct", "chain": [R.choice(cs) for _ in range(R.randint(3, 5))], "leaf": R.choice(LEAVES)}
+        eval_case(ctx, case)
+        ctx.case(("struct", repr(case)), True)
+        if (i & 0x3F) == 0 and ctx.time_left() < ctx.budget_s * 0.85:
+            break
+    # 2. includes
+    n_i = 300 if quick else 20000
+    for i in range(n_i):
+        incs = []
+        for _ in range(R.randint(1, 3)):
+            incs.append({"opt": R.choice(["plain", "plain", "start-line", "end-line", "start-after", "end-before", "heading-offset", "both"]), "nleaves": R.randint(1, 3), "leaves": [R.choice(["para", "heading", "fence", "list", "target"]) for _ in range(3)],
+                         "pre": R.randint(0, 3), "nested": R.random() < 0.2, "final_nl": R.random() < 0.8, "chain": [R.choice(cs) for _ in range(R.choice([0, 0, 1, 2]))]})
+        case = {"kind": "include", "includes": incs}
+        eval_case(ctx, case)
+        ctx.case(("include", repr(case)), True)
+        ctx.count("include_cases")
+        if i == 0:
+            ctx.sample(case)
+        if (i & 0x3F) == 0 and ctx.time_left() < ctx.budget_s * 0.7:
+            break
+    # 3. grammar documents
+    n_g = 400 if quick else 30000
+    for i in range(n_g):
+        case = {"kind": "grammar", "seed": R.getrandbits(48), "depth": R.randint(2, 5),
+                "blocks": ["para", "para", "atx", "setext", "bullet", "ordered", "quote", "icode", "fence", "fence_lang", "target", "directive", "colon_directive", "div", "table", "deflist", "attrs_para", "tasklist", "fieldlist"]}
+        k = eval_case(ctx, case)
+        ctx.case(("grammar", case["seed"]), bool(k))
+        if (i & 0x3F) == 0 and ctx.time_left() < ctx.budget_s * 0.55:
+            break
+    # 4. exhaustive nestings with the remaining budget
     maxd = 2 if quick else 3
     idx = n = 0
     complete = True
@@ -408,38 +441,6 @@ def run_shard(ctx):
     ctx.enumerated(n)
     ctx.subrun("exhaustive_nestings", exhaustive=complete, max_depth=maxd, container_layouts=len(cs), leaves=len(LEAVES), cases=n)
     ctx.sample({"kind": "struct", "chain": [["quote"], ["tick", "colon", 1, 0, 0]], "leaf": "para"})
-    # deeper random nestings
-    n_r = 300 if quick else 20000
-    for i in range(n_r):
-        case = {"kind": "struct", "chain": [R.choice(cs) for _ in range(R.randint(3, 5))], "leaf": R.choice(LEAVES)}
-        eval_case(ctx, case)
-        ctx.case(("struct", repr(case)), True)
-        if (i & 0x3F) == 0 and ctx.out_of_time():
-            break
-    # includes
-    n_i = 300 if quick else 20000
-    for i in range(n_i):
-        incs = []
-        for _ in range(R.randint(1, 3)):
-            incs.append({"opt": R.choice(["plain", "plain", "start-line", "end-line", "start-after", "end-before", "heading-offset", "both"]), "nleaves": R.randint(1, 3), "leaves": [R.choice(["para", "heading", "fence", "list", "target"]) for _ in range(3)],
-                         "pre": R.randint(0, 3), "nested": R.random() < 0.2, "final_nl": R.random() < 0.8, "chain": [R.choice(cs) for _ in range(R.choice([0, 0, 1, 2]))]})
-        case = {"kind": "include", "includes": incs}
-        eval_case(ctx, case)
-        ctx.case(("include", repr(case)), True)
-        ctx.count("include_cases")
-        if i == 0:
-            ctx.sample(case)
-        if (i & 0x3F) == 0 and ctx.out_of_time():
-            break
-    # grammar documents
-    n_g = 400 if quick else 30000
-    for i in range(n_g):
-        case = {"kind": "grammar", "seed": R.getrandbits(48), "depth": R.randint(2, 5),
-                "blocks": ["para", "para", "atx", "setext", "bullet", "ordered", "quote", "icode", "fence", "fence_lang", "target", "directive", "colon_directive", "div", "table", "deflist", "attrs_para", "tasklist", "fieldlist"]}
-        k = eval_case(ctx, case)
-        ctx.case(("grammar", case["seed"]), bool(k))
-        if (i & 0x3F) == 0 and ctx.out_of_time():
-            break
 
 
 def finalize(m, tier):
